@@ -26,4 +26,4 @@ def main(sid, checks):
     return 0
 
 if __name__ == "__main__":
-    sys.exit(main(sys.argv[1], sys.argv[2:]))
+    sys.exit(main(sys.argv[1], sys.argv[2:]))  # <seeded dir name> <check id>...
